@@ -75,6 +75,11 @@ def run(sid, tier="quick", props=None):
     if rc != 0:
         print("patch does not apply", out)
         sys.exit(2)
+    saved = {}
+    for p in props:
+        ep = os.path.join(VERIF, "evidence", f"{p}.json")
+        if os.path.exists(ep):
+            saved[ep] = open(ep).read()
     try:
         for p in props:
             t0 = time.time()
@@ -95,6 +100,9 @@ def run(sid, tier="quick", props=None):
                                             "seconds": round(time.time() - t0, 1), "tail": out.splitlines()[-3:]}
             print(sid, p, tier, "exit", rc, "CAUGHT" if viol else "missed", viol[:1])
     finally:
+        # the committed evidence comes from the unchanged tree only
+        for ep, txt in saved.items():
+            open(ep, "w").write(txt)
         sh("git checkout -- . && git clean -fdq -e target", "/repo")
         sh("rm -f /verif/replay/*", VERIF)
     json.dump(meta, open(os.path.join(d, "meta.json"), "w"), indent=1)
